@@ -2,6 +2,7 @@
 //! sketches derive from an item's digest, observed through the public API.
 use datasketches::bloom::BloomFilterBuilder;
 use datasketches::countmin::CountMinSketch;
+use datasketches::cpc::CpcSketch;
 use datasketches::hll::{HllSketch, HllType};
 use datasketches::theta::ThetaSketch;
 use datasketches::verif;
@@ -120,6 +121,12 @@ impl Family for Hashes {
                     }
                 }
                 out
+            }
+            9 => {
+                // CPC: (row, col) of a single update = the only surprising value of a fresh sparse sketch
+                let mut s = CpcSketch::with_seed(a[1] as u8, a[0] as u64);
+                with_item!(item(&a[2..]), v, s.update(v));
+                s.verif_state().table.iter().map(|rc| *rc as i128).collect()
             }
             _ => vec![PANIC],
         }
